@@ -27,6 +27,14 @@ def lex_tokens(ans):
     return [t for t in out[1:] if t[0] != 0]
 
 
+def gcc_syntax_ok(text):
+    import subprocess
+    try:
+        return subprocess.run(["gcc", "-std=gnu11", "-fsyntax-only", "-w", "-x", "c", "-"], input=text, capture_output=True, universal_newlines=True, timeout=20).returncode == 0
+    except Exception:
+        return True
+
+
 def run(chk, only=None):
     chk.coverage["trusted_base"] = pv.TRUSTED_COMMON + [
         "C03_expr_lossless is about the hand-written model coq/C06Model.v of the N-ary expression layer (tied to the parser by C06's correspondence), instantiated with the regenerated operator tables",
@@ -42,6 +50,12 @@ def run(chk, only=None):
     tus = [t for c, t in snippets if c == 0]
     for _ in range(150 if quick else 1500):
         inputs.append((0, "\n".join(rng.choice(tus) for _ in range(rng.randint(2, 6)))))
+    import random as _random
+    import cgen, ambig
+    for _i in range(150 if chk.tier == 'quick' else 3000):
+        inputs.append((0, cgen.G(_random.Random(rng.getrandbits(40)), gnu=False).unit()))
+    for _i in range(60 if chk.tier == 'quick' else 1000):
+        inputs.append((0, ambig.P(_random.Random(rng.getrandbits(40))).generate().text()))
     inputs += [(0, "int x; ; int y;"), (0, "char *s = \"a\" \"b\" L\"c\";"), (0, "int f(a, b, c) int a; char b; long c; { return a; }"),
                (0, "struct s { int b : 3 __attribute__((packed)); };"), (2, "__builtin_va_arg(ap, int)"), (0, "void f(void) { x <: 1 :> = 2; <% %> }"),
                (0, "__inline__ __volatile__ int __attribute__((unused)) v;"), (2, "a ? b : c ? d : e = f"), (3, "for (int i = 0; i < 3; ++i) { continue; }")]
@@ -74,7 +88,11 @@ def run(chk, only=None):
         if p["E"] != want:
             missing = [x for x in want if x not in p["E"]]
             dup = sorted({x for x in p["E"] if p["E"].count(x) > 1})
-            bad.append((m, "tokens-emitted", {"missing": missing[:8], "duplicated": dup[:8], "out_of_order": (not missing and not dup)}))
+            why_ = "tokens-emitted"
+            if missing and not dup and m[0] == 0 and not gcc_syntax_ok(m[1]):
+                # the text is not a C program and the parser dropped part of it WITHOUT a diagnostic: the silent rejection recorded under C01
+                why_ = "tokens-missing:invalid-input-dropped-silently"
+            bad.append((m, why_, {"missing": missing[:8], "duplicated": dup[:8], "out_of_order": (not missing and not dup)}))
             continue
         src, out = lex_tokens(lexans[2 * j]), lex_tokens(lexans[2 * j + 1])
         if src != out:
@@ -87,7 +105,7 @@ def run(chk, only=None):
     crashes = sum(1 for p in parsed if p == "crash")
     chk.coverage["evaluations"] = len(reqs)
     chk.coverage["distinct_nontrivial"] = len({(meta[i][0], meta[i][1]) for i in idx if parsed[i]["ntok"] > 6})
-    chk.coverage["rule"] = ("the %d snippets of the repository's own tests in their syntax category and %d random concatenations, under disambiguation modes %s; only inputs that parse completely without "
+    chk.coverage["rule"] = ("the %d snippets of the repository's own tests in their syntax category and %d random concatenations and generated units (grammar-directed programs of gen/cgen.py, ambiguity programs of gen/ambig.py), under disambiguation modes %s; only inputs that parse completely without "
                             "diagnostics count (%d); for each: emitted token indices == 1..n, lex(unparse) == lex(source) on (kind, spelling), node kinds of the re-parse identical. "
                             "non-trivial = more than five tokens" % (len(snippets), len(inputs) - len(snippets) - 9, modes, n_clean))
     chk.coverage["samples"] = [inputs[7][1], inputs[len(snippets) + 1][1][:160]] if not only else [inputs[0][1][:200]]
@@ -95,12 +113,12 @@ def run(chk, only=None):
     seen = set()
     bad.sort(key=lambda b: len(b[0][1]))
     for m, why, det in bad:
-        key = why + ":" + (str(det.get("missing") or det.get("duplicated") or "")[:20] if why == "tokens-emitted" else str(det.get("source"))[:40] if why == "spelling" else "")
+        key = why if why.startswith("tokens-missing:") else why + ":" + (str(det.get("missing") or det.get("duplicated") or "")[:20] if why == "tokens-emitted" else str(det.get("source"))[:40] if why == "spelling" else "")
         fam = why if why != "spelling" else "spelling:" + str(det.get("source"))[:40]
         if fam in seen:
             continue
         seen.add(fam)
-        chk.report(fam if why == "spelling" else why + ":" + m[1][:40],
+        chk.report(fam if why == "spelling" else why if why.startswith("tokens-missing:") else why + ":" + m[1][:40],
                    {"request": "unparse %d 2:1:0:0:%d %s" % (m[0], m[2], m[1].encode("utf-8", "replace").hex()), "category": m[0], "text": m[1], "why": why, "detail": det,
                     "count_failing_same_kind": sum(1 for b in bad if b[1] == why)}, found=True, what="unparse(parse(text)) is not the token sequence of text")
         if len(seen) > 10:
